@@ -28,7 +28,7 @@ ANCHORS = [
     "acnportal.acnsim.models.battery:Linear2StageBattery._charge",
     "acnportal.acnsim.models.battery:Linear2StageBattery._charge_stepwise",
 ]
-REQUIRED = ["ideal_judged", "l2_judged", "regime:pilot-limited-below-transition", "regime:power-limited-below-transition",
+REQUIRED = ["zero_pilot_after_a_period_of_charging", "ideal_judged", "l2_judged", "regime:pilot-limited-below-transition", "regime:power-limited-below-transition",
             "regime:crossing", "regime:rampdown", "regime:pilot-below-envelope-start-in-rampdown", "regime:full",
             "regime:zero-pilot", "reference_crosschecks", "reset_checks", "reset_after_explicit_reset_checks", "split_checks", "same_object_calls_judged",
             "infinite_or_astronomical_pilots", "numpy_scalar_pilots", "extreme_max_power_or_transition", "shallow_copies_charged"]
@@ -81,6 +81,16 @@ def run_case(case, obs):
             # an unbounded pilot: what UncontrolledCharging sends to a default EVSE (max_rate = inf); also astronomically large ones
             p = rng.choice([math.inf, math.inf, 1e300, 1e18])
             obs.ev("infinite_or_astronomical_pilots")
+        mini = None
+        if rng.random() < 0.06:
+            # the same physics in miniature (a coin cell on a trickle charger, a capacitor bank): capacity, maximum power and pilot
+            # scaled down together by up to fourteen orders of magnitude; the laws know no absolute scale, so neither do the
+            # tolerances in this regime
+            mini = 10 ** rng.uniform(-14, -3)
+            cap, c0, pmax = cap * mini, c0 * mini, pmax * mini
+            if math.isfinite(p):
+                p = p * mini
+            obs.ev("miniature_batteries")
         pt = rng.random()
         if pt < 0.15:
             p = np.float64(p)  # pilots come out of numpy pilot matrices in simulations
@@ -91,7 +101,7 @@ def run_case(case, obs):
         elif pt < 0.25:
             p = float(np.float32(p))
         wit = dict(capacity=cap, init=c0, max_power=pmax, tsoc=ts, voltage=V, period=Tm, pilot=p)
-        tol = 1e-9 * max(1.0, cap)
+        tol = 1e-9 * max(1.0, cap) if mini is None else 1e-9 * cap
         # ---------------- ideal battery
         b = Battery(cap, c0, pmax)
         r = b.charge(p, V, Tm)
@@ -122,6 +132,16 @@ def run_case(case, obs):
             obs.nontrivial(f"{obs.case_hash}:{i}")
         if p == 0 and (abs(r) > 1e-12 or abs(c1 - c0) > 1e-12 * cap):
             obs.violate("zero_pilot_delivers", f"pilot 0 gave rate {r!r}, charge {c0!r}->{c1!r}", **wit)
+        if p > 0 and i % 3 == 0:
+            # ... and a period at 0 A right after a period of charging, on the same battery: nothing is delivered, nothing is
+            # drawn (the power the battery reports as drawn is zero again)
+            rz = b.charge(0, V, Tm)
+            cz = battery_state(b)[0]
+            pw = getattr(b, "current_charging_power", None)
+            obs.ev("zero_pilot_after_a_period_of_charging")
+            if abs(rz) > 1e-12 or (cz is not None and abs(cz - c1) > 1e-12 * cap) or (pw is not None and abs(pw) > 1e-12):
+                obs.violate("zero_pilot_delivers", f"pilot 0 after a period at {p!r} A: rate {rz!r}, charge {c1!r}->{cz!r}, reported charging power "
+                            f"{pw!r} kW", **wit)
         # cross-check of the reference itself against numerical integration (sampled)
         stiff = (pmax / cap / (1 - ts)) * (Tm / 60.0) / 6000 > 0.5  # explicit RK4 with 6000 steps is unstable beyond this
         if i % 10 == 0 and not stiff:
